@@ -119,6 +119,7 @@ Record run := {
   r_enter : Z; r_exit : Z;
   r_work_scan : Z; r_work_parse : Z; r_work_fields : Z; r_work_frags : Z; r_work_vars : Z; r_work_valid : Z;
   r_work_other : Z;
+  r_runes : Z; r_peeks : Z; r_decodes : Z;   (* calls of the scanner's consumeRune, peek, readNextRune *)
   r_doc : option doc;
   r_cost : option (outcome * Z);       (* run with ValidateCost: outcome, extra statements *)
   r_ns : Z; r_cost_ns : Z; r_timed : bool
@@ -141,6 +142,10 @@ Definition oracle (r : run) : option string :=
   else if negb (is_refusal (r_outcome r)) && negb (r_enter r =? r_exit r)
        then Some "recursion-counter-leak"%string
   else if headroom * unit_scan * (r_len r + 1) <? r_work_scan r then Some "scan-work"%string
+  (* Cplx/ScanSteps.v: one consumeRune per rune, at most one per byte; one DecodeRune per consumeRune
+     and one for New; peek() at most twice per rune (observed: <= 1.1) *)
+  else if (r_len r <? r_runes r) || (r_len r + 1 <? r_decodes r) || (2 * r_len r + 2 <? r_peeks r)
+  then Some "scan-reads"%string
   else if headroom * unit_parse * parse_steps_bound ntok <? r_work_parse r then Some "parse-work"%string
   else
     match r_doc r with
